@@ -39,6 +39,9 @@ type PropConfig struct {
 	// The engine has no variant clauses yet: a loop is either listed here with the reason why it ends (reported in
 	// the evidence as an assumption) or carries the obligation `termination:loopN`, which fails.
 	LoopVariants map[string]string `json:"loop_variants"`
+	// Termination: every loop that is not a range loop needs a proved variant (`loop N decreases E`) and every call
+	// inside a call-graph cycle a proved measure (`decreases E` on both functions); see termination.go
+	Termination bool `json:"termination"`
 	// Uses: clauses tagged with these properties are assumed in this property's run (imports)
 	Uses []string `json:"uses"`
 }
@@ -448,6 +451,10 @@ func cmdCheck(args []string) int {
 			}
 		}
 		c.loopVariants = cfg.LoopVariants
+		c.termination = cfg.Termination
+		if cfg.Termination && c.termCyc == nil {
+			c.termCyc = c.cyclicFns()
+		}
 		g, err := c.genWith(fn, *prop, forb, oh, gbs, ffs)
 		if err != nil {
 			genErrs = append(genErrs, err.Error())
@@ -763,6 +770,16 @@ func cmdCheck(args []string) int {
 			trusted = append(trusted, "termination of "+k+" is not proved: "+cfg.LoopVariants[k])
 		}
 	}
+	var structLoops []string
+	if cfg.Termination {
+		for _, g := range gens {
+			structLoops = append(structLoops, g.structLoops...)
+		}
+		sort.Strings(structLoops)
+		trusted = append(trusted, "termination: range loops over slices, arrays, strings, maps and integers end by the semantics of Go (no obligation; listed under coverage.termination.range_loops); every other loop head carries dec obligations (variant >= 0 and strictly smaller after each back edge), every call inside a call-graph cycle a rec-dec obligation")
+		trusted = append(trusted, "termination: calls that leave the repository are assumed to return; the progress of the standard library's readers is the assumed `rem` clauses of stdlib/core.spec (multipart.NewReader, Reader.NextPart, bytes.Buffer.ReadFrom) - a caller-supplied io.Reader that returns (0, nil) for ever is outside this assumption")
+		trusted = append(trusted, "termination: the call graph used for cycles has static calls, CHA-resolved interface calls and parent -> closure edges; a call of a function value is not an edge")
+	}
 	for _, u := range cfg.Uses {
 		trusted = append(trusted, "imported clauses: every requires/ensures/invariant tagged "+u+" is assumed here; those obligations are discharged by the check of "+u+" (which must pass for this result to stand)")
 	}
@@ -799,6 +816,26 @@ func cmdCheck(args []string) int {
 		"samples":                  samples,
 		"violations":               violationRecords,
 		"explanation":              "each obligation is one SMT query generated from the go/ssa form of the function in /repo's working tree; a callee is represented by its contract only; loops by their invariants; unsat = discharged for all inputs",
+	}
+	if cfg.Termination {
+		var cyc []string
+		for _, g := range gens {
+			if id := c.termCyc[g.fn]; id != 0 {
+				cyc = append(cyc, fmt.Sprintf("%s (cycle %d)", g.key, id))
+			}
+		}
+		sort.Strings(cyc)
+		nDec := 0
+		for _, j := range jobs {
+			if j.o.Kind == "dec" || j.o.Kind == "rec-dec" {
+				nDec++
+			}
+		}
+		ev.Coverage["termination"] = map[string]interface{}{
+			"range_loops":             structLoops,
+			"functions_on_call_cycles": cyc,
+			"variant_obligations":      nDec,
+		}
 	}
 	ev.Assumptions = trusted
 	writeJSON(filepath.Join(*outDir, "evidence", *prop+".json"), ev)
